@@ -15,9 +15,11 @@ git apply "$D/patch.diff"
 if cargo test --workspace --no-fail-fast --offline >/tmp/seedverify_suite.log 2>&1; then suite=pass; else suite=FAIL; fi
 feat=ok; cargo build --offline --features serde,rayon >/dev/null 2>&1 || feat=FAIL
 cp "$D/demo.rs" tests/demo_seeded.rs
-if cargo test --offline --features serde,rayon --test demo_seeded >/tmp/seedverify_demo1.log 2>&1; then with=passes; else with=fails; fi
+TC=""; FEAT="serde,rayon"
+if grep -q 'feature = "nightly"' "$D/demo.rs" || grep -q "histogram_const" "$D/patch.diff"; then TC="+nightly"; FEAT="nightly,serde,rayon"; cargo +nightly build --offline --features nightly >/dev/null 2>&1 || feat=FAIL; fi
+if cargo $TC test --offline --features $FEAT --test demo_seeded >/tmp/seedverify_demo1.log 2>&1; then with=passes; else with=fails; fi
 git checkout -q -- src
-if cargo test --offline --features serde,rayon --test demo_seeded >/tmp/seedverify_demo2.log 2>&1; then without=passes; else without=fails; fi
+if cargo $TC test --offline --features $FEAT --test demo_seeded >/tmp/seedverify_demo2.log 2>&1; then without=passes; else without=fails; fi
 rm -f tests/demo_seeded.rs
 echo "applies=yes suite_with_patch=$suite build_serde_rayon=$feat demo_with_patch=$with demo_without_patch=$without"
 [ "$suite" = pass ] && [ "$with" = fails ] && [ "$without" = passes ]
